@@ -204,10 +204,7 @@ func dumpVal(sb *strings.Builder, v reflect.Value, depth int) {
 	case reflect.Slice:
 		if v.Type().Elem().Kind() == reflect.Uint8 && v.Type().Elem().PkgPath() == "" {
 			n := v.Len()
-			if v.IsNil() {
-				sb.WriteString("[]byte(nil)")
-				return
-			}
+			// nil and empty are the same value for the properties (see SemEqual)
 			fmt.Fprintf(sb, "hex[%d]:", n)
 			lim := n
 			if lim > 96 {
@@ -219,10 +216,6 @@ func dumpVal(sb *strings.Builder, v reflect.Value, depth int) {
 			if lim < n {
 				sb.WriteString("…")
 			}
-			return
-		}
-		if v.IsNil() {
-			sb.WriteString(shortType(v.Type()) + "(nil)")
 			return
 		}
 		sb.WriteString(shortType(v.Type()) + "{")
